@@ -363,6 +363,17 @@ def s_let_result(rng, i):
                 tag="let-result")
 
 
+def s_local_letrec(rng, i):
+    """a frame-local RECURSIVE closure (local letrec capturing its own binding), in dsp or in a callee of dsp: created and dropped within the
+    sample on the unchanged VM (the frame's Return drops the still-open closure).  Response to seeded change C12d."""
+    n = rng.range(1, 4)
+    if rng.chance(1, 2):
+        return Snip(body=[f"letrec depth{i} = |n| if (n > 0.0) depth{i}(n - 1.0) + 1.0 else 0.0"], val=f"depth{i}({n}.0)", tag="local-letrec")
+    b = fnum(rng)
+    return Snip(defs=f"fn powi{i}(base, n){{\n  letrec go = |k| if (k > 0.0) base * go(k - 1.0) else 1.0\n  go(n)\n}}\n",
+                val=f"powi{i}({b}, {n}.0)", tag="local-letrec")
+
+
 def s_plain(rng, i):
     return Snip(defs=f"fn pl{i}(x:float){{ x {fop(rng)} {fnum(rng)} + mem(x) }}\n", val=f"pl{i}({fnum(rng)})", tag="plain")
 
@@ -371,9 +382,9 @@ SNIPPETS = [s_local_closure, s_local_closure, s_local_counter, s_escape, s_escap
             s_hof_lambda, s_hof_named, s_hof_var, s_compose, s_twice, s_pipe, s_tuple_closure, s_record_closure,
             s_global_closure, s_global_counter, s_global_replicate, s_global_stateful, s_box_list, s_box_list,
             s_box_tree, s_box_option, s_sched_self, s_sched_lambda_dsp, s_sched_metro, s_sched_counter, s_plain,
-            s_shared_upvalue, s_sibling_capture, s_sibling_capture, s_box_destructure, s_box_destructure, s_forward, s_forward, s_forward, s_forward, s_forward, s_forward, s_let_result]
+            s_shared_upvalue, s_sibling_capture, s_sibling_capture, s_box_destructure, s_box_destructure, s_local_letrec, s_local_letrec, s_forward, s_forward, s_forward, s_forward, s_forward, s_forward, s_let_result]
 # snippets that only use objects made during global initialisation: the property must hold with no exception
-STEADY_TAGS = {"global-closure", "box-global", "box-none", "plain", "sched-metro", "sched-letrec", "box-local-single", "box-destructure"}
+STEADY_TAGS = {"global-closure", "box-global", "box-none", "plain", "sched-metro", "sched-letrec", "box-local-single", "box-destructure", "local-letrec"}
 
 
 def gen_program(rng, only_steady=False):
